@@ -55,6 +55,10 @@ type caseT struct {
 	Pkg    string `json:"pkg"`
 	Kind   string `json:"kind"`
 	Expect string `json:"expect"`
+	// History: an earlier version of the package (file name -> content; "" = the file did not exist). The C08 check
+	// generates for that version first, then puts the current sources in place and generates again: the bytes must be
+	// those of a generation from scratch over the current sources.
+	History map[string]string `json:"history,omitempty"`
 }
 
 var cases []caseT
@@ -472,6 +476,7 @@ func E(a, b *strings.Builder) bool { return deriveEqual(a, b) }
 func F(a, b []string) bool { return deriveEqual(a, b) } // renamed by -autoname
 `
 
+// histories (earlier version -> current version); see genHistories
 const bad = `package bad
 
 func Eq(a, b chan int) bool { return deriveEqual(a, b) }
@@ -633,6 +638,61 @@ func randomPkg(r *rand.Rand, name string) string {
 	return sb.String()
 }
 
+func genHistories() {
+	h := func(pkg, kind string, now, before map[string]string) {
+		for fn, src := range now {
+			write(filepath.Join(pkg, fn), strings.ReplaceAll(src, "PKG", pkg))
+		}
+		hist := map[string]string{}
+		for fn, src := range before {
+			hist[fn] = strings.ReplaceAll(src, "PKG", pkg)
+		}
+		for fn := range now {
+			if _, ok := before[fn]; !ok {
+				hist[fn] = "" // new file: absent in the earlier version
+			}
+		}
+		cases = append(cases, caseT{Pkg: pkg, Kind: kind, Expect: "ok", History: hist})
+		stats["kind_"+kind]++
+	}
+	// an argument that has no type yet must not take the parameter type of the function an earlier run left behind
+	h("hflow1", "history", map[string]string{
+		"names.go": "package PKG\n\ntype StrSet map[string]struct{}\n\nfunc Distinct(names []string) []string {\n\treturn deriveKeys(deriveSet(names))\n}\n"},
+		map[string]string{"names.go": "package PKG\n\ntype StrSet map[string]struct{}\n\nfunc Distinct(s StrSet) []string {\n\treturn deriveKeys(s)\n}\n"})
+	h("hflow2", "history", map[string]string{
+		"m.go": "package PKG\n\ntype Reg map[string]int\n\ntype Ints []int\n\nfunc conv(s string) int { return len(s) }\n\nfunc Lens(r Reg) []int {\n\treturn deriveSort(deriveFmap(conv, deriveKeys(r)))\n}\n\nfunc Same(r Reg, want Ints) bool {\n\treturn deriveEqual(deriveSort(deriveFmap(conv, deriveKeys(r))), want)\n}\n"},
+		map[string]string{"m.go": "package PKG\n\ntype Reg map[string]int\n\ntype Ints []int\n\nfunc Lens(xs Ints) Ints {\n\treturn deriveSort(xs)\n}\n\nfunc Same(a, want Ints) bool {\n\treturn deriveEqual(a, want)\n}\n"})
+	// a function that used to be generated is now written by hand, in files that sort before / after derived.gen.go,
+	// in-package test files included; the old derived.gen.go still declares it
+	point := "package PKG\n\ntype Point struct {\n\tX, Y  int\n\tLabel string\n}\n\nfunc Hash(p *Point) uint64 { return deriveHash(p) }\n"
+	pointV1 := point + "\nfunc Same(a, b *Point) bool { return deriveEqualPoint(a, b) }\n"
+	hand := "\n// deriveEqualPoint used to be generated.\nfunc deriveEqualPoint(this, that *Point) bool { return this.X == that.X && this.Y == that.Y }\n"
+	testV1 := "package PKG\n\nimport \"testing\"\n\nfunc TestSame(t *testing.T) {\n\tif !deriveEqualPoint(&Point{X: 1}, &Point{X: 1}) {\n\t\tt.Fatal()\n\t}\n}\n"
+	for i, fn := range []string{"aaa_test.go", "approx_test.go", "x_test.go", "zzz_test.go", "aaa.go", "zzz.go"} {
+		pkg := fmt.Sprintf("hhand%d", i)
+		now := map[string]string{"point.go": point + "\nfunc Same(a, b *Point) bool { return deriveEqualPoint(a, b) }\n"}
+		before := map[string]string{"point.go": pointV1}
+		if strings.HasSuffix(fn, "_test.go") {
+			now[fn] = strings.Replace(testV1, "func TestSame", strings.TrimPrefix(hand, "\n")+"\nfunc TestSame", 1)
+			now["point.go"] = point
+			before[fn] = testV1
+			before["point.go"] = point
+		} else {
+			now[fn] = "package PKG\n" + hand
+		}
+		h(pkg, "history", now, before)
+	}
+	// a hand-written function that is never called bears the name a HELPER had in the old derived.gen.go; its file sorts
+	// after / before derived.gen.go
+	withList := "package PKG\n\ntype S struct {\n\tA int\n\tL []string\n}\n\nfunc Same(a, b *S) bool { return deriveEqual(a, b) }\n"
+	for i, fn := range []string{"zzz.go", "aaa.go", "zzz_test.go"} {
+		h(fmt.Sprintf("hhelper%d", i), "history", map[string]string{"s.go": withList, fn: "package PKG\n\n// deriveEqual_ is the user's own now and is not called anywhere.\nfunc deriveEqual_(x int) int { return x }\n"},
+			map[string]string{"s.go": withList})
+	}
+	// a hand-written function with a plugin prefix that is never called, next to an old derived.gen.go that declares it too
+	h("hhandu", "history", map[string]string{"p.go": point + hand + "\nfunc Same(a, b *Point) bool { return a.X == b.X }\n"}, map[string]string{"p.go": pointV1})
+}
+
 func main() {
 	flag.Parse()
 	if *out == "" {
@@ -644,7 +704,7 @@ func main() {
 	write("y/b/b.go", yb)
 	add := func(pkg, kind, expect, src string) {
 		write(filepath.Join(pkg, pkg+".go"), src)
-		cases = append(cases, caseT{pkg, kind, expect})
+		cases = append(cases, caseT{Pkg: pkg, Kind: kind, Expect: expect})
 		stats["kind_"+kind]++
 	}
 	add("amb1", "assignable-named-unnamed", "ok", amb1)
@@ -694,6 +754,7 @@ func main() {
 		}
 		add(name, "random-mix", "any", src)
 	}
+	genHistories()
 	sort.Slice(cases, func(i, j int) bool { return cases[i].Pkg < cases[j].Pkg })
 	b, _ := json.MarshalIndent(cases, "", " ")
 	write("cases.json", string(b))
